@@ -125,7 +125,52 @@ func propC01(t *rapid.T) {
 	if d := live.Check(res, want); d != "" {
 		t.Fatalf("%s %s wrong: %s\n  A=%s\n  B=%s\n  [%s]", mode, opNames[op], d, ma, mb, descPair(sa, sb, fa, fb, rel))
 	}
-	desc := descPair(sa, sb, fa, fb, fmt.Sprintf("%s %s %s self=%v", rel, mode, opNames[op], self))
+	// the answer must not depend on what was computed before: a second in-place
+	// step on the result, then every bitmap that shares storage with the operands
+	// (the other side of a copy-on-write pair, the untouched operand) still
+	// stands for its own set
+	follow := ""
+	if rapid.IntRange(0, 2).Draw(t, "followup") > 0 {
+		sc, relc := gen.Related(t, "C", sa, pol)
+		fc := live.DrawForm(t, "formC")
+		lc := mustMake(t, sc, fc)
+		op2 := rapid.IntRange(0, 3).Draw(t, "op2")
+		inplaceOp(op2, res, lc.B)
+		want = modelOp(op2, want, lc.Model)
+		follow = fmt.Sprintf("; then in-place %s with C=%s as %s (%s)", opNames[op2], sc, fc, relc)
+		if d := live.Check(res, want); d != "" {
+			t.Fatalf("%s %s%s wrong: %s\n  A=%s\n  B=%s\n  [%s]", mode, opNames[op], follow, d, ma, mb, descPair(sa, sb, fa, fb, rel))
+		}
+		if d := live.Check(lc.B, lc.Model); d != "" {
+			t.Fatalf("argument C changed by in-place %s: %s", opNames[op2], d)
+		}
+		runtime.KeepAlive(lc)
+		inst.Count("C01", "followup-step")
+	}
+	if la.Twin != nil {
+		if d := live.Check(la.Twin, ma); d != "" {
+			t.Fatalf("the bitmap sharing A's chunks (copy-on-write clone) no longer holds A after %s %s%s: %s\n  A=%s\n  B=%s\n  [%s]", mode, opNames[op], follow, d, ma, mb, descPair(sa, sb, fa, fb, rel))
+		}
+	}
+	if !self {
+		if lb.Twin != nil {
+			if d := live.Check(lb.Twin, mb); d != "" {
+				t.Fatalf("the bitmap sharing B's chunks (copy-on-write clone) no longer holds B after %s %s%s: %s\n  A=%s\n  B=%s\n  [%s]", mode, opNames[op], follow, d, ma, mb, descPair(sa, sb, fa, fb, rel))
+			}
+		}
+		if d := live.Check(lb.B, mb); d != "" {
+			t.Fatalf("operand B no longer holds its set after %s %s%s: %s\n  A=%s\n  B=%s\n  [%s]", mode, opNames[op], follow, d, ma, mb, descPair(sa, sb, fa, fb, rel))
+		}
+	}
+	if !inplace {
+		if d := live.Check(la.B, ma); d != "" {
+			t.Fatalf("operand A no longer holds its set after %s %s%s: %s\n  A=%s\n  B=%s\n  [%s]", mode, opNames[op], follow, d, ma, mb, descPair(sa, sb, fa, fb, rel))
+		}
+	}
+	if !la.BufferIntact() || !lb.BufferIntact() {
+		t.Fatalf("caller's bytes behind a zero-copy operand changed after %s %s%s  [%s]", mode, opNames[op], follow, descPair(sa, sb, fa, fb, rel))
+	}
+	desc := descPair(sa, sb, fa, fb, fmt.Sprintf("%s %s %s self=%v%s", rel, mode, opNames[op], self, follow))
 	runtime.KeepAlive(la)
 	runtime.KeepAlive(lb)
 	inst.Case("C01", !ma.IsEmpty() && !mb.IsEmpty() && common > 0, desc)
